@@ -17,6 +17,8 @@ RNG_PRIMS = ("rand_core::TryRngCore::try_fill_bytes", "rand_core::RngCore::fill_
              "rand_core::RngCore::next_u64", "rand_core::RngCore::next_u32", "rand_core::TryRngCore::try_next_u64",
              "rand_core::TryRngCore::try_next_u32")
 
+MULTI_CONFIG = True
+
 EXPLANATION = (
     "REACH/MUSTCALL/PROV on MIR. The RNG primitives are enumerated by callee identity (rand_core "
     "traits, getrandom); they may be called only from the crate's rng module and only on OsRng. "
